@@ -56,7 +56,7 @@ func validateImportBody(body Body) error {
 	}
 
 	// Prevent disallowed internal properties from being used
-	disallowed := []string{BodyId, BodyRev, BodyExpiry, BodyRevisions}
+	disallowed := []string{BodyId, BodyRev, BodyCV, BodyExpiry, BodyRevisions}
 	for _, prop := range disallowed {
 		if _, ok := body[prop]; ok {
 			return base.NewHTTPError(http.StatusNotFound, "top-level property '"+prop+"' is a reserved internal property therefore cannot be imported")
@@ -71,7 +71,7 @@ func validateImportBody(body Body) error {
 // Takes a rawBody to avoid an unnecessary call to doc.BodyBytes()
 func validateBlipBody(ctx context.Context, rawBody []byte, doc *Document) error {
 	// Prevent disallowed internal properties from being used
-	disallowed := []string{base.SyncPropertyName, BodyId, BodyRev, BodyDeleted, BodyRevisions}
+	disallowed := []string{base.SyncPropertyName, BodyId, BodyRev, BodyCV, BodyDeleted, BodyRevisions}
 	// A property name can be spelled with JSON escapes ("\u005fid"): the raw-bytes shortcut is only valid without any
 	mayBeEscaped := bytes.IndexByte(rawBody, '\\') >= 0
 	for _, prop := range disallowed {
